@@ -40,40 +40,49 @@ typedef enum varintSplitFullStorage {
     VARINT_SPLIT_FULL_STORAGE_1 = (1 << 6) - 1,
     VARINT_SPLIT_FULL_STORAGE_2 =
         VARINT_SPLIT_FULL_STORAGE_1 + (1ULL << 14) - 1,
-    VARINT_SPLIT_FULL_STORAGE_3 =
+    /* End of the embedded 3 byte level (|10pppppp|q|r|); every external
+     * level stores 'value - VARINT_SPLIT_FULL_STORAGE_EMBEDDED_MAX'. */
+    VARINT_SPLIT_FULL_STORAGE_EMBEDDED_MAX =
         VARINT_SPLIT_FULL_STORAGE_2 + (1ULL << 22) - 1,
+    /* 3 bytes also hold the external level |11000010|q|r| */
+    VARINT_SPLIT_FULL_STORAGE_3 =
+        VARINT_SPLIT_FULL_STORAGE_EMBEDDED_MAX + (1ULL << 16) - 1,
     VARINT_SPLIT_FULL_STORAGE_4 =
-        VARINT_SPLIT_FULL_STORAGE_3 + (1ULL << 24) - 1,
+        VARINT_SPLIT_FULL_STORAGE_EMBEDDED_MAX + (1ULL << 24) - 1,
 } varintSplitFullStorage;
 
 #define VARINT_SPLIT_FULL_STORAGE_5                                            \
-    (VARINT_SPLIT_FULL_STORAGE_3 + (1ULL << 32) - 1)
+    (VARINT_SPLIT_FULL_STORAGE_EMBEDDED_MAX + (1ULL << 32) - 1)
 #define VARINT_SPLIT_FULL_STORAGE_6                                            \
-    (VARINT_SPLIT_FULL_STORAGE_3 + (1ULL << 40) - 1)
+    (VARINT_SPLIT_FULL_STORAGE_EMBEDDED_MAX + (1ULL << 40) - 1)
 #define VARINT_SPLIT_FULL_STORAGE_7                                            \
-    (VARINT_SPLIT_FULL_STORAGE_3 + (1ULL << 48) - 1)
+    (VARINT_SPLIT_FULL_STORAGE_EMBEDDED_MAX + (1ULL << 48) - 1)
 #define VARINT_SPLIT_FULL_STORAGE_8                                            \
-    (VARINT_SPLIT_FULL_STORAGE_3 + (1ULL << 56) - 1)
+    (VARINT_SPLIT_FULL_STORAGE_EMBEDDED_MAX + (1ULL << 56) - 1)
 #define VARINT_SPLIT_FULL_STORAGE_9 (UINT64_MAX)
 
 typedef enum varintSplitFullNoZeroStorage {
     VARINT_SPLIT_FULL_NO_ZERO_STORAGE_1 = (1 << 6),
     VARINT_SPLIT_FULL_NO_ZERO_STORAGE_2 =
         VARINT_SPLIT_FULL_NO_ZERO_STORAGE_1 + (1ULL << 14) - 1,
-    VARINT_SPLIT_FULL_NO_ZERO_STORAGE_3 =
+    /* End of the embedded 3 byte level; base of every external level. */
+    VARINT_SPLIT_FULL_NO_ZERO_STORAGE_EMBEDDED_MAX =
         VARINT_SPLIT_FULL_NO_ZERO_STORAGE_2 + (1ULL << 22) - 1,
+    /* 3 bytes also hold the external level |11000010|q|r| */
+    VARINT_SPLIT_FULL_NO_ZERO_STORAGE_3 =
+        VARINT_SPLIT_FULL_NO_ZERO_STORAGE_EMBEDDED_MAX + (1ULL << 16) - 1,
     VARINT_SPLIT_FULL_NO_ZERO_STORAGE_4 =
-        VARINT_SPLIT_FULL_NO_ZERO_STORAGE_3 + (1ULL << 24) - 1,
+        VARINT_SPLIT_FULL_NO_ZERO_STORAGE_EMBEDDED_MAX + (1ULL << 24) - 1,
 } varintSplitFullNoZeroStorage;
 
 #define VARINT_SPLIT_FULL_NO_ZERO_STORAGE_5                                    \
-    (VARINT_SPLIT_FULL_NO_ZERO_STORAGE_3 + (1ULL << 32) - 1)
+    (VARINT_SPLIT_FULL_NO_ZERO_STORAGE_EMBEDDED_MAX + (1ULL << 32) - 1)
 #define VARINT_SPLIT_FULL_NO_ZERO_STORAGE_6                                    \
-    (VARINT_SPLIT_FULL_NO_ZERO_STORAGE_3 + (1ULL << 40) - 1)
+    (VARINT_SPLIT_FULL_NO_ZERO_STORAGE_EMBEDDED_MAX + (1ULL << 40) - 1)
 #define VARINT_SPLIT_FULL_NO_ZERO_STORAGE_7                                    \
-    (VARINT_SPLIT_FULL_NO_ZERO_STORAGE_3 + (1ULL << 48) - 1)
+    (VARINT_SPLIT_FULL_NO_ZERO_STORAGE_EMBEDDED_MAX + (1ULL << 48) - 1)
 #define VARINT_SPLIT_FULL_NO_ZERO_STORAGE_8                                    \
-    (VARINT_SPLIT_FULL_NO_ZERO_STORAGE_3 + (1ULL << 56) - 1)
+    (VARINT_SPLIT_FULL_NO_ZERO_STORAGE_EMBEDDED_MAX + (1ULL << 56) - 1)
 #define VARINT_SPLIT_FULL_NO_ZERO_STORAGE_9 (UINT64_MAX)
 
 /* define a fake __has_builtin() so GCC doesn't complain */
